@@ -106,6 +106,166 @@ fn check_strict(text: &str, normalized: &str, offsets: &[usize]) -> Result<(), (
     }
 }
 
+/// Exactness ("exact offset map"; the `Normalizer` docs call the map "a mapping
+/// from byte offsets in the normalized string to corresponding offsets in the
+/// original string"). Three independent models, by kind of normalizer:
+///  * NFC / NFKC: provenance reference (first contributing source char);
+///  * Bert / NFD / NFKD work char by char, left to right: the map must be
+///    consistent with normalizing prefixes — for every offset value o that
+///    occurs, first at normalized position p, `normalize(input[..o])` equals
+///    `normalized[..p]`;
+///  * Replace: reference implementation on top of the same regex engine
+///    (text outside matches maps to itself, every byte of the replacement maps
+///    to the start of the match — what the pinned test_replace cases show);
+///  * Sequence: the map must equal the composition (done here) of the maps
+///    the members return when called one after the other; an offset equal to
+///    the length of an intermediate text maps to the end of the input.
+fn check_exact(norm: &Norm, text: &str, normalized: &str, offsets: &[usize]) -> Result<(), (String, String)> {
+    match norm {
+        Norm::Nfc | Norm::Nfkc => {
+            // A source char may compose into the previous output char, so prefixes do not
+            // normalize independently. Reference with provenance: every output char maps to
+            // the first source char that contributed to it (the convention the pinned
+            // test_unicode cases show: NFC("I\u{307}ab") -> offsets [0, 0, 3, 4]).
+            let compat = matches!(norm, Norm::Nfkc);
+            let mut out: Vec<(char, usize)> = Vec::new();
+            for (o, ch) in text.char_indices() {
+                let mut parts = Vec::new();
+                if compat {
+                    unicode_normalization::char::decompose_compatible(ch, |d| parts.push(d));
+                } else {
+                    parts.push(ch);
+                }
+                for d in parts {
+                    match out.last().and_then(|&(pc, po)| unicode_normalization::char::compose(pc, d).map(|c| (c, po))) {
+                        Some(composed) => *out.last_mut().unwrap() = composed,
+                        None => out.push((d, o)),
+                    }
+                }
+            }
+            let ref_text: String = out.iter().map(|&(c, _)| c).collect();
+            if ref_text != normalized {
+                // a different (e.g. fully conformant) composition algorithm: texts are not
+                // this property's concern, and the provenance model does not apply
+                return Ok(());
+            }
+            let ref_map: Vec<usize> = out.iter().flat_map(|&(c, o)| std::iter::repeat(o).take(c.len_utf8())).collect();
+            if ref_map != offsets {
+                return Err((
+                    "exact:composed-char-not-mapped-to-first-contributing-source-char".into(),
+                    format!("input {text:?} -> {normalized:?}: offsets {offsets:?}, provenance reference {ref_map:?}"),
+                ));
+            }
+            Ok(())
+        }
+        Norm::Bert { .. } | Norm::Nfd | Norm::Nfkd => {
+            let n = norm.build_cached();
+            let mut p = 0usize;
+            while p < offsets.len() {
+                let o = offsets[p];
+                if text.is_char_boundary(o) {
+                    let (pre, _) = n
+                        .normalize(&text[..o])
+                        .map_err(|e| ("normalize-error".to_string(), format!("{e}")))?;
+                    if normalized.get(..p) != Some(pre.as_str()) {
+                        return Err((
+                            "exact:map-inconsistent-with-normalizing-the-prefix".into(),
+                            format!(
+                                "normalized position {p} maps to input offset {o}, but normalize(input[..{o}]) = {pre:?} while normalized[..{p}] = {:?}; input {text:?} -> {normalized:?}, offsets {offsets:?}",
+                                normalized.get(..p)
+                            ),
+                        ));
+                    }
+                }
+                // next distinct offset value
+                let mut q = p;
+                while q < offsets.len() && offsets[q] == o {
+                    q += 1;
+                }
+                p = q;
+            }
+            Ok(())
+        }
+        Norm::Replace { pattern, content } => {
+            let pat = vc_text::REPLACE_PATTERNS[*pattern as usize % vc_text::REPLACE_PATTERNS.len()];
+            let content = vc_text::REPLACE_CONTENT[*content as usize % vc_text::REPLACE_CONTENT.len()];
+            let (en, eo) = ref_replace(pat, content, text).map_err(|e| ("harness:reference-regex-error".to_string(), e))?;
+            if en != normalized {
+                return Err((
+                    "exact:replace-text-differs-from-reference".into(),
+                    format!("Replace({pat:?}, {content:?}) on {text:?}: got {normalized:?}, reference {en:?}"),
+                ));
+            }
+            if eo != offsets {
+                return Err((
+                    "exact:replace-offsets-differ-from-reference".into(),
+                    format!("Replace({pat:?}, {content:?}) on {text:?} -> {normalized:?}: offsets {offsets:?}, reference {eo:?}"),
+                ));
+            }
+            Ok(())
+        }
+        Norm::Sequence(members) => {
+            let mut cur = text.to_string();
+            let mut map: Vec<usize> = (0..text.len()).collect();
+            for m in members {
+                let (next, next_map) = m
+                    .build_cached()
+                    .normalize(&cur)
+                    .map_err(|e| ("normalize-error".to_string(), format!("{e}")))?;
+                // members are checked on their own intermediate input as well
+                check_map(&cur, &next, &next_map).map_err(|(s, d)| (format!("{s}@sequence-member"), d))?;
+                check_exact(m, &cur, &next, &next_map).map_err(|(s, d)| (format!("{s}@sequence-member"), d))?;
+                map = next_map.iter().map(|&o| map.get(o).copied().unwrap_or(text.len())).collect();
+                cur = next;
+            }
+            if cur != normalized || map != offsets {
+                return Err((
+                    "exact:sequence-differs-from-composition-of-members".into(),
+                    format!("input {text:?}: Sequence gives {normalized:?} {offsets:?}, composing the members gives {cur:?} {map:?}"),
+                ));
+            }
+            Ok(())
+        }
+    }
+}
+
+thread_local! {
+    static REGEXES: std::cell::RefCell<std::collections::HashMap<&'static str, std::rc::Rc<fancy_regex::Regex>>> =
+        std::cell::RefCell::new(std::collections::HashMap::new());
+}
+
+/// Reference `Replace`: non-overlapping matches left to right (the engine's
+/// `find_iter`), text between matches copied with identity offsets, each byte
+/// of the replacement mapped to the start of its match.
+fn ref_replace(pat: &'static str, content: &str, text: &str) -> Result<(String, Vec<usize>), String> {
+    let re = REGEXES.with(|m| {
+        m.borrow_mut()
+            .entry(pat)
+            .or_insert_with(|| std::rc::Rc::new(fancy_regex::Regex::new(pat).expect("pool pattern compiles")))
+            .clone()
+    });
+    let mut out = String::new();
+    let mut offs = Vec::new();
+    let mut last = 0usize;
+    for m in re.find_iter(text) {
+        let m = m.map_err(|e| format!("{e}"))?;
+        for k in last..m.start() {
+            offs.push(k);
+        }
+        out.push_str(&text[last..m.start()]);
+        for _ in 0..content.len() {
+            offs.push(m.start());
+        }
+        out.push_str(content);
+        last = m.end();
+    }
+    for k in last..text.len() {
+        offs.push(k);
+    }
+    out.push_str(&text[last..]);
+    Ok((out, offs))
+}
+
 fn oracle(c: &Case) -> Verdict {
     let n = c.norm.build_cached();
     let (normalized, offsets) = match n.normalize(&c.text) {
@@ -113,6 +273,9 @@ fn oracle(c: &Case) -> Verdict {
         Err(e) => return Verdict::fail("normalize-error", format!("normalize({:?}) with {:?} failed: {e}", c.text, c.norm)),
     };
     if let Err((sig, detail)) = check_map(&c.text, &normalized, &offsets) {
+        return Verdict::fail(sig, format!("{detail}; normalizer {:?}", c.norm));
+    }
+    if let Err((sig, detail)) = check_exact(&c.norm, &c.text, &normalized, &offsets) {
         return Verdict::fail(sig, format!("{detail}; normalizer {:?}", c.norm));
     }
     if let Err((sig, detail)) = check_strict(&c.text, &normalized, &offsets) {
